@@ -37,6 +37,7 @@ func checkC08(p *Prog, l *Ledger) {
 	checkGrammarEquivalence(p, l, pi, "C08/S3-grammar")
 	checkLookaheadRestrictions(p, l, pi)
 	checkSemanticFilters(p, l, pi)
+	checkTargetTransparency(p, l, pi)
 	checkErrorOrigin(p, l, pi)
 	checkRunPipeline(p, l, "C08/S4-not-run")
 	checkFlagWriters(p, l, "C08/S4-flag-writers") // nobody but the reporter raises — and nobody at all clears — the syntax-error flag between the phases
@@ -52,6 +53,8 @@ func checkC08(p *Prog, l *Ledger) {
 				l.Violate("C08/S2-no-crash", "lexer#"+e.Site, e.Pos, "advance() reachable where "+e.KV["unsafe"])
 			}
 		}
+		// what is a comment or a string (and therefore not program text) is part of "accepted iff derivable"
+		checkExtents(p, l, run.m.G, "C08/S7-lexical-extents")
 	}
 	if ok, why := parserCursorLemma(p); ok {
 		l.Discharge("C08/S2-no-crash", "parser#cursor", "", why, true)
@@ -693,4 +696,227 @@ func parserCursorLemma(p *Prog) (bool, string) {
 		return false, "lemma d fails: " + strings.Join(why, "; ")
 	}
 	return true, "lemma d: current is moved only by advance(), which increments only when tokens[current] is not EOF; the token list handed to NewParser is ScanTokens' result, whose last element is the only EOF, so current <= len-1; tokens is never reassigned; every previous() follows a consumption in the same function or in every caller, so current >= 1 there"
+}
+
+// ---- S6 assignment targets ----------------------------------------------------------------------------------------
+//
+// The parser decides "is the left side assignable" from the *node type* of the already parsed left side.  That
+// agrees with the grammar (IDENTIFIER | arrayAccess | propertyAccess before "=") only if a node of a target type is
+// the parse of exactly a target form.  Structural necessary condition decided here: an expression-level parse
+// function that hands the node of a sub-parser on *unchanged* must not have consumed any other token on that path
+// when the node may have a target type — otherwise the extra tokens (parentheses, a prefix operator …) vanish from
+// the tree and `( x ) = 1` is accepted as `x = 1`.
+func checkTargetTransparency(p *Prog, l *Ledger, pi *parserInfo) {
+	rule := "C08/S6-assignment-target"
+	am := pi.Models["assignment"]
+	if am == nil {
+		l.Undecide(rule, "parser.assignment", "", "the assignment parse function was not found")
+		return
+	}
+	targets := map[string]bool{}
+	for _, e := range am.G.Events("typetest") {
+		if strings.HasPrefix(e.Args[1], "*ast.") {
+			targets[strings.TrimPrefix(e.Args[1], "*ast.")] = true
+		}
+	}
+	if len(targets) == 0 {
+		l.Discharge(rule, "parser.assignment#targets", "", "assignment does not decide assignability by node type: rule not applicable to this parser shape", false)
+		return
+	}
+	type passRec struct {
+		callee   string
+		consumed []string
+		only     map[string]bool // positive type tests on the passed node (nil = none)
+		not      map[string]bool
+		pos      string
+	}
+	fresh := map[string]map[string]bool{}
+	passes := map[string][]passRec{}
+	// one product search per function: the monitor state is the finite summary (token consumptions, successful
+	// sub-parser calls, fresh nodes, type tests) of the path so far; every ok-return is reported as a record
+	setAdd := func(set, x string) string {
+		items := map[string]bool{x: true}
+		for _, y := range strings.Split(set, "\x02") {
+			if y != "" {
+				items[y] = true
+			}
+		}
+		var out []string
+		for y := range items {
+			out = append(out, y)
+		}
+		sort.Strings(out)
+		return strings.Join(out, "\x02")
+	}
+	for _, name := range pi.Names {
+		m := pi.Models[name]
+		fresh[name] = map[string]bool{}
+		mon := Monitor{Init: "\x01\x01\x01", Also: map[string]bool{"typetest": true}, Step: func(state string, e *Event) string {
+			f := strings.Split(state, "\x01") // consumed, calls, nodes, tests
+			switch {
+			case e.Op == "match" && e.Out == "true":
+				f[0] = setAdd(f[0], "match("+strings.Join(e.Args, ",")+")")
+			case e.Op == "consume" && e.Out == "ok":
+				f[0] = setAdd(f[0], "consume("+e.Args[0]+")")
+			case e.Op == "advance":
+				f[0] = setAdd(f[0], "advance()")
+			case e.Op == "call" && e.Out == "ok":
+				f[1] = setAdd(f[1], e.KV["res"]+"="+e.Args[0])
+				if pi.Consuming[e.Args[0]] {
+					f[0] = setAdd(f[0], e.Args[0]+"()="+e.KV["res"])
+				}
+			case e.Op == "node":
+				f[2] = setAdd(f[2], e.Out+"="+e.Args[0])
+			case e.Op == "typetest" && strings.HasPrefix(e.Args[1], "*ast."):
+				f[3] = setAdd(f[3], e.Args[0]+"="+e.Out+":"+strings.TrimPrefix(e.Args[1], "*ast."))
+			case e.Op == "return" && e.Out == "ok":
+				return "!" + e.KV["r0"] + "\x01" + e.Pos + "\x01" + strings.Join(f, "\x01")
+			case e.Op == "return":
+				return ""
+			}
+			return strings.Join(f, "\x01")
+		}}
+		for _, w := range m.G.Run(mon) {
+			f := strings.Split(strings.TrimPrefix(w.Msg, "!"), "\x01")
+			r0, pos := f[0], f[1]
+			if r0 == "" || r0 == "nil" {
+				continue
+			}
+			isFresh := false
+			for _, n := range strings.Split(f[4], "\x02") {
+				if strings.HasPrefix(n, r0+"=") {
+					fresh[name][strings.TrimPrefix(n, r0+"=")] = true
+					isFresh = true
+				}
+			}
+			if isFresh {
+				continue
+			}
+			callee := ""
+			for _, c := range strings.Split(f[3], "\x02") {
+				if strings.HasPrefix(c, r0+"=") {
+					callee = strings.TrimPrefix(c, r0+"=")
+				}
+			}
+			if callee == "" {
+				continue
+			}
+			rec := passRec{callee: callee, pos: pos, not: map[string]bool{}}
+			for _, c := range strings.Split(f[2], "\x02") {
+				if c != "" && c != callee+"()="+r0 {
+					if i := strings.Index(c, "()="); i >= 0 {
+						c = c[:i+2]
+					}
+					rec.consumed = append(rec.consumed, c)
+				}
+			}
+			for _, t := range strings.Split(f[5], "\x02") {
+				if !strings.HasPrefix(t, r0+"=") {
+					continue
+				}
+				t = strings.TrimPrefix(t, r0+"=")
+				if strings.HasPrefix(t, "true:") {
+					if rec.only == nil {
+						rec.only = map[string]bool{}
+					}
+					rec.only[strings.TrimPrefix(t, "true:")] = true
+				} else {
+					rec.not[strings.TrimPrefix(t, "false:")] = true
+				}
+			}
+			passes[name] = append(passes[name], rec)
+		}
+	}
+	// node types a function can return: own fresh nodes plus those of the functions it passes on
+	ret := map[string]map[string]bool{}
+	for n, f := range fresh {
+		ret[n] = map[string]bool{}
+		for t := range f {
+			ret[n][t] = true
+		}
+	}
+	narrowed := func(r passRec) map[string]bool {
+		out := map[string]bool{}
+		for t := range ret[r.callee] {
+			if r.only != nil && !r.only[t] {
+				continue
+			}
+			if r.not[t] {
+				continue
+			}
+			out[t] = true
+		}
+		return out
+	}
+	for changed := true; changed; {
+		changed = false
+		for n, rs := range passes {
+			for _, r := range rs {
+				for t := range narrowed(r) {
+					if !ret[n][t] {
+						ret[n][t] = true
+						changed = true
+					}
+				}
+			}
+		}
+	}
+	// functions whose result can become the left side of an assignment: pass-through closure from assignment's operand
+	cone := map[string]bool{}
+	var work []string
+	for _, e := range am.G.Events("call") {
+		if e.Out == "ok" && e.Args[0] != "assignment" {
+			work = append(work, e.Args[0])
+		}
+	}
+	for len(work) > 0 {
+		n := work[len(work)-1]
+		work = work[:len(work)-1]
+		if cone[n] {
+			continue
+		}
+		cone[n] = true
+		for _, r := range passes[n] {
+			work = append(work, r.callee)
+		}
+	}
+	var names []string
+	for n := range cone {
+		names = append(names, n)
+	}
+	sort.Strings(names)
+	var found []string
+	for _, n := range names {
+		bad := ""
+		npass := 0
+		for _, r := range passes[n] {
+			npass++
+			if len(r.consumed) == 0 {
+				continue
+			}
+			var hit []string
+			for t := range narrowed(r) {
+				if targets[t] {
+					hit = append(hit, t)
+				}
+			}
+			sort.Strings(hit)
+			if len(hit) > 0 {
+				bad = fmt.Sprintf("%s returns the node of %s() unchanged after also consuming %s (return at %s); that node can be %s, which assignment() accepts as a target: the consumed tokens are not part of any assignable form of the grammar, so a non-assignable left side is accepted", n, r.callee, strings.Join(r.consumed, " "), r.pos, strings.Join(hit, "/"))
+				break
+			}
+		}
+		found = append(found, n)
+		if bad != "" {
+			l.Violate(rule, "parser."+n, "", bad)
+		} else {
+			var ts []string
+			for t := range ret[n] {
+				ts = append(ts, t)
+			}
+			sort.Strings(ts)
+			l.Discharge(rule, "parser."+n, "", fmt.Sprintf("%d pass-through path(s), none consumes further tokens around a possible target node; can return {%s}", npass, strings.Join(ts, ",")), npass > 0)
+		}
+	}
+	l.RequireMin(rule, 5, found, "expression-level parse functions whose result can reach the left side of '='")
 }
